@@ -120,6 +120,69 @@ def trained_status_case(rng, dist, pws=None):
     return out
 
 
+def line_interleaving_case():
+    """a status request served at *every* line boundary of the generation code (the finest switch point the interpreter offers between
+    two threads, short of single byte codes): the real `StatusReport.print_status` - what `keypress` calls - is run at the k-th line
+    event inside `lib_guesser` while a pre-terminal with a word, a mask and digits is expanded and while a Markov level runs; the
+    stream written to stdout is the same for every k as without any request"""
+    import contextlib
+    import io
+    import sys
+    common.use_impl()
+    spec = {'terminals': {'A4': [['love', '0.5'], ['pass', '0.5']], 'C4': [['LLLL', '0.4'], ['ULLL', '0.4'], ['UUUU', '0.2']], 'D2': [['12', '0.5'], ['99', '0.5']],
+                          'O1': [['!', '1.0']]},
+            'grammar': [['A4D2', '0.5'], ['O1A4', '0.25'], ['M', '0.25']], 'omen_prob': [['1', '0.5']], 'prince': [], 'mode': 'dyadic', 'encoding': 'utf-8',
+            'omen': {'ngram': 2, 'alphabet': ['a', 'b'], 'ip': [[0, 'a'], [0, 'b']], 'ep': [[0, 'a'], [0, 'b']],
+                     'cp': [[0, 'aa'], [0, 'ab'], [0, 'ba'], [0, 'bb']], 'ln': [10, 1, 10], 'keyspace': [[1, 4]]}}
+    d = common.write_ruleset(os.path.join(common.scratch_dir('rules'), 'c12lines'), spec)
+    pcfg = common.load_grammar(d)
+    import lib_guesser.cracking_session as cs
+    session = cs.CrackingSession(pcfg, new_cfg(), os.path.join(common.scratch_dir('sess'), 'c12lines.sav'))
+    report = session.report
+    pts = [[('A4', 0), ('C4', 0), ('D2', 0)], [('O1', 0), ('A4', 0), ('C4', 1)], [('M', 0)]]
+    here = os.sep + 'lib_guesser' + os.sep
+
+    def expand(k):
+        """all three pre-terminals with one status request at line event k (None: no request); returns (stdout text, events seen)"""
+        seen = [0]
+        served = [False]
+
+        def tracer(frame, event, arg):
+            if here not in frame.f_code.co_filename:
+                return None
+            if event == 'line':
+                if k is not None and seen[0] == k and not served[0]:
+                    served[0] = True
+                    sys.settrace(None)
+                    try:
+                        with contextlib.redirect_stderr(io.StringIO()):
+                            report.print_status(pcfg)
+                    except Exception:
+                        pass
+                    sys.settrace(tracer)
+                seen[0] += 1
+            return tracer
+        buf = io.StringIO()
+        with contextlib.redirect_stdout(buf), contextlib.redirect_stderr(io.StringIO()):
+            for pt in pts:
+                report.pt_item = {'pt': pt, 'prob': 0.5, 'base_prob': 0.5}
+                sys.settrace(tracer)
+                try:
+                    pcfg.create_guesses(pt)
+                finally:
+                    sys.settrace(None)
+        return buf.getvalue(), seen[0]
+    base, total = expand(None)
+    viol = []
+    for k in range(total):
+        got, _ = expand(k)
+        if got != base:
+            viol.append({'property': 'C12', 'kind': 'status-request-changes-stream', 'line_event': k, 'of': total, 'without_request': base.split('\n')[:8],
+                         'with_request': got.split('\n')[:8], 'witness': {'line_interleaving_case': True}})
+            break
+    return viol, total
+
+
 def run(ctx):
     rng = ctx.rng
     common.use_impl()
@@ -129,6 +192,10 @@ def run(ctx):
     cases = nontrivial = 0
     root = common.scratch_dir('rules')
     sdir = common.scratch_dir('sess')
+    v_lines, n_lines = line_interleaving_case()
+    viol += v_lines
+    cases += n_lines
+    dist['status_at_line_boundaries'] = n_lines
     for i in range(ctx.scale(12, 120)):
         spec = small_ruleset(rng, rich=(i % 2 == 1))      # every other ruleset: Markov levels that span several lengths / IP levels
         d = common.write_ruleset(os.path.join(root, f"c12_{i % 5}"), spec)
@@ -299,6 +366,8 @@ def run(ctx):
 
 def replay(ctx, payload):
     w_ = payload.get('violation', {}).get('witness') or {}
+    if w_.get('line_interleaving_case'):
+        return line_interleaving_case()[0]
     if 'trained_passwords' in w_:
         common.use_impl()
         return [{'kind': v['kind']} for v in trained_status_case(None, {}, pws=w_['trained_passwords'])]
